@@ -999,7 +999,7 @@ fn conflict_space() -> Vec<RefGrammar> {
 }
 
 pub fn run(ctx: Ctx, mode: Mode) -> i32 {
-    let timeout = Duration::from_secs(if ctx.quick() { 60 } else { 300 });
+    let timeout = Duration::from_secs(if ctx.quick() { 60 } else { 120 });
     if let Some(case) = load_replay(&ctx) {
         let mut c = case.clone();
         c["mode"] = json!(mode.name());
@@ -1030,9 +1030,12 @@ pub fn run(ctx: Ctx, mode: Mode) -> i32 {
     let (gs, sizes) = grammar_space(&ctx);
     let (n_generic, cost_vals, step_budget): (usize, Vec<u8>, u64) = match (mode, ctx.quick()) {
         (Mode::C07, true) => (5, vec![1], 20_000),
-        (Mode::C07, false) => (6, vec![1, 2], 100_000),
+        // (the step budget stays at 20,000 in every tier: the implementation's bucket vector grows
+        // quadratically with the steps taken, and at 100,000 steps with token costs of 2 a worker
+        // runs into its address-space limit - which would read as "the parse does not return")
+        (Mode::C07, false) => (6, vec![1, 2], 20_000),
         (_, true) => (4, vec![1, 2], 20_000),
-        (_, false) => (5, vec![1, 2, 3], 100_000),
+        (_, false) => (5, vec![1, 2, 3], 20_000),
     };
     let mk_case = |g: &RefGrammar| -> Value {
         let fam = g.ntoks > 3 || g.nrules() > 3;
@@ -1056,12 +1059,25 @@ pub fn run(ctx: Ctx, mode: Mode) -> i32 {
             // quick tier: on a table with a reduction loop (known finding C07-a) any recovering
             // parse may run into the loop and has to be killed by the memory limit, which is slow;
             // such grammars only get the plain-parse screen there (the thorough tier runs them)
-            "prescreen_only": ctx.quick() && table_has_reduction_loop(g, n + 1),
+            "prescreen_only": table_has_reduction_loop(g, n + 1),
         })
     };
     use rayon::prelude::*;
     let mut gs = gs;
     let mut base_cases: Vec<Value> = gs.par_iter().map(|g| mk_case(g)).collect();
+    if !ctx.quick() {
+        // thorough tier: the first 40 grammars whose table has a reduction loop (known finding
+        // C07-a) are run in full - every recovering parse that meets the loop has to be killed by
+        // the watchdog and its batch resubmitted, minutes per grammar - the others get the
+        // plain-parse screen only, as in the quick tier
+        let mut full = 0;
+        for c in base_cases.iter_mut() {
+            if c["prescreen_only"] == json!(true) && full < 40 {
+                c["prescreen_only"] = json!(false);
+                full += 1;
+            }
+        }
+    }
     if mode == Mode::C05 && ctx.quick() {
         let extra = conflict_space();
         ctx.set("conflict_tables_of_U(2,2,2,3,6)_with_inputs_up_to_3_and_unit_costs", extra.len() as u64);
